@@ -303,3 +303,36 @@ def resolve_tmp(fl, expr, node, depth=6):
                 e._parent = new
         return new
     return expr
+
+
+def site_in(fn, cfg, node):
+    """The CFG node of ``fn`` that executes ``node``: the node containing it,
+    or - when it lies in a nested helper of fn - the node containing the
+    helper's single call (followed through helpers of helpers)."""
+    cur = node
+    for _ in range(5):
+        owner = cur
+        while owner is not None and not isinstance(
+                owner, (ast.FunctionDef, ast.AsyncFunctionDef, ast.Lambda)):
+            owner = getattr(owner, "_parent", None)
+        if owner is fn:
+            return cfg.node_containing(cur)
+        if owner is None or isinstance(owner, ast.Lambda):
+            break
+        sites = [c for c in ast.walk(fn) if isinstance(c, ast.Call) and
+                 isinstance(c.func, ast.Name) and c.func.id == owner.name and
+                 not _inside_node(c, owner)]
+        if len(sites) != 1:
+            break
+        cur = sites[0]
+    raise AnalysisError("%s: a statement lies in a helper that is not called "
+                        "from exactly one place" % fn.name)
+
+
+def _inside_node(node, anc):
+    n = node
+    while n is not None:
+        if n is anc:
+            return True
+        n = getattr(n, "_parent", None)
+    return False
